@@ -39,7 +39,17 @@ ASSUMPTIONS = [
 NAME_ALPHABET = "abnlr \"\\\\'\n\té漢-:{}[];>"
 
 
-NODE_CLASSES = {"Node": Node, "EqNode": nodes.EqNode, "FalsyNode": nodes.FalsyNode, "LenNode": nodes.LenNode}
+def _link(name):
+    """A SymlinkNode as tree node: its name is its target's, its position is its own (the target has a parent and a child
+    elsewhere, so any structural value wrongly taken from the target shows as a wrong statement)."""
+    from anytree import SymlinkNode
+
+    target = Node(name, parent=Node("target-root"))
+    Node("target-child", parent=target)
+    return SymlinkNode(target)
+
+
+NODE_CLASSES = {"Node": Node, "EqNode": nodes.EqNode, "FalsyNode": nodes.FalsyNode, "LenNode": nodes.LenNode, "Link": _link}
 
 
 # names that are not plain strings, or whose text needs care: equal-but-different numbers, str subclasses with their own
@@ -608,7 +618,7 @@ def _enum_cases(max_nodes, index, count):
             for stop in shapes.subsets(sub):
                 for hide in shapes.subsets(sub):
                     for maxlevel in [None] + list(range(0, height + 3)):
-                        yield {"shape": forest.to_list(shape), "names": names, "start": start, "stop": stop, "hide": hide, "maxlevel": maxlevel, "truth": k, "positional": k % 4 == 0, "cls": ("Node", "EqNode", "Node", "FalsyNode", "LenNode")[k % 5]}
+                        yield {"shape": forest.to_list(shape), "names": names, "start": start, "stop": stop, "hide": hide, "maxlevel": maxlevel, "truth": k, "positional": k % 4 == 0, "cls": ("Node", "EqNode", "Link", "FalsyNode", "LenNode")[k % 5]}
 
 
 def _fraction_cases(max_nodes):
@@ -662,7 +672,7 @@ def random_cases(draw, exporters=("DotExporter", "UniqueDotExporter", "RenderTre
         "exporters": kinds,
         "to_file": draw(st.integers(0, 9)) == 0 and not any(isinstance(n, str) and any(0xD800 <= ord(ch) <= 0xDFFF for ch in n) for n in names),  # lone surrogates cannot be written as UTF-8
         "mutations": draw(strategies.tree_mutations(max_ops=2)),
-        "cls": draw(st.sampled_from(["Node", "Node", "EqNode", "FalsyNode", "LenNode"])),
+        "cls": draw(st.sampled_from(["Node", "Node", "EqNode", "FalsyNode", "LenNode", "Link"])),
     }
     if draw(st.booleans()):
         funcs = {}
